@@ -6,6 +6,7 @@
 import AnyVecModel.Proofs.Exec
 import AnyVecModel.Proofs.KernelView
 import AnyVecModel.Proofs.KernelStackAlign
+import AnyVecModel.Proofs.KernelPtrAt
 namespace AnyVec
 namespace C12
 open World
@@ -114,6 +115,15 @@ theorem stack_alignment_is_the_source :
     Gen.Kernel.stack_max_align = VecSt.STACK_MAX_ALIGN ∧ Gen.Kernel.stack_max_align ≤ Gen.Kernel.stack_mem_align ∧
     Gen.Kernel.stack_max_align ≤ Gen.Kernel.stackn_mem_align :=
   KernelTie.stack_align_tie
+
+/-- **source tie**: element `index` lives `index * size` bytes into the storage on the erased path
+(`AnyVecRaw::get_unchecked(_mut)`: `mem.as_ptr().add(size * index)`) and on the typed path
+(`AnyVecTyped::as_ptr().add(index)`) alike, as `utils::element_ptr_at` / `element_mut_ptr_at` of the source have it on
+this run - the fact behind "an element pointer is its slot" that the other re-translated kernels use. -/
+theorem element_pointers_are_the_source (index size : Nat) (known : Bool) :
+    Gen.Kernel.element_ptr_at_off index size known = index * size ∧
+    Gen.Kernel.element_mut_ptr_at_off index size known = index * size :=
+  KernelTie.element_ptr_at_tie index size known
 
 end C12
 end AnyVec
